@@ -503,6 +503,17 @@ def guarded_primitives(prog, an, rep, pid):
         st = stores_to(f, var)
         if name == 'merge':
             ok = len(st) == 1 and st[0][1] is not None and bool(flags)
+            if 'do_push' in f.params and not st:
+                # a parameter of its own (keyword-only, after *sources):
+                # its default is what an absent keyword means
+                a = f.node.args
+                dflt = dict(zip([x.arg for x in a.kwonlyargs],
+                                a.kw_defaults))
+                pos = [x.arg for x in a.args]
+                dflt.update(zip(pos[len(pos) - len(a.defaults):],
+                                a.defaults))
+                d = dflt.get('do_push')
+                ok = isinstance(d, ast.Constant) and d.value is False
             rep.check(ok, pid + '.KWC.do-push-default', f.qname +
                       ': do_push defaults to False', f.where(),
                       'do_push of Branch.merge is bound as %s' %
